@@ -16,11 +16,12 @@ theorem wf_parts {σ : Schema} (h : σ.wf = true) :
     (σ.optsOptional = false ∨ (σ.tail.isNone = true ∧ σ.optsPos = some σ.k ∧ σ.k ≥ 1)) ∧
     ((σ.custom && σ.tail.isSome) = false) ∧
     (∀ p ∈ σ.pos, PosStep.wf σ p = true) ∧
-    (∀ s ∈ σ.opts, OptStep.wf s = true) := by
+    (∀ s ∈ σ.opts, OptStep.wf s = true) ∧
+    (∀ c ∈ σ.pcross, c ∈ σ.cross) := by
   simp only [Schema.wf, Bool.and_eq_true, decide_eq_true_eq, Bool.or_eq_true, Bool.not_eq_true',
-    List.all_eq_true, beq_iff_eq] at h
-  obtain ⟨⟨⟨⟨⟨⟨⟨h1, h2⟩, h3⟩, h4⟩, h5⟩, h6⟩, h7⟩, h8⟩ := h
-  refine ⟨h1, h2, h3, ?_, ?_, ?_, h7, h8⟩
+    List.all_eq_true, beq_iff_eq, List.contains_iff_mem] at h
+  obtain ⟨⟨⟨⟨⟨⟨⟨⟨h1, h2⟩, h3⟩, h4⟩, h5⟩, h6⟩, h7⟩, h8⟩, h9⟩ := h
+  refine ⟨h1, h2, h3, ?_, ?_, ?_, h7, h8, h9⟩
   · simpa using h4
   · rcases h5 with h | ⟨⟨ha, hb⟩, hc⟩
     · exact Or.inl h
@@ -87,7 +88,7 @@ theorem marshalDict_eq (σ : Schema) (m : Msg) :
 theorem get?_marshalDict_opt {σ : Schema} {O : Oracles} {m : Msg}
     (hwf : σ.wf = true) (hwfO : σ.wfO O = true) (hst : σ.strict O m = true) {s : OptStep} (hs : s ∈ σ.opts) :
     Dict.get? (σ.marshalDict m) s.key =
-      if s.mm.emits (m.get s.field) (m.get s.mm.guard) = true then some (s.ty.encode (m.get s.field)) else none := by
+      if s.mm.emits (m.get s.field) = true then some (s.ty.encode (m.get s.field)) else none := by
   rw [marshalDict_eq]
   have hcust : s.key ∉ ((if σ.custom then (m.get cs!"custom").entries else [])).map (·.1) := by
     by_cases hc : σ.custom = true
@@ -123,11 +124,11 @@ theorem OptStep.parse_marshal {σ : Schema} {O : Oracles} {m : Msg}
     (hwf : σ.wf = true) (hwfO : σ.wfO O = true)
     (hst : σ.strict O m = true) (hres : σ.residual O m = true) {s : OptStep} (hs : s ∈ σ.opts) :
     s.parse O (σ.marshalDict m) = .ok (m.get s.field) := by
-  have hswf := (wf_parts hwf).2.2.2.2.2.2.2 s hs
+  have hswf := (wf_parts hwf).2.2.2.2.2.2.2.1 s hs
   have hsres := (residual_parts hres).1 s hs
   unfold OptStep.parse
   rw [get?_marshalDict_opt hwf hwfO hst hs]
-  by_cases hem : s.mm.emits (m.get s.field) (m.get s.mm.guard) = true
+  by_cases hem : s.mm.emits (m.get s.field) = true
   · simp only [hem, if_true]
     unfold OptStep.residual at hsres
     rw [if_pos hem, Bool.and_eq_true] at hsres
